@@ -1,4 +1,5 @@
 #!/bin/bash
 # build.sh <repo-dir> <output-binary>: same E3 build as C12 (instrumented driver overlay +
-# instrumented akita copy), other main package.
+# instrumented akita copy), other main package. c12/build.sh (step 9) also builds the platform
+# repeat-run part ./checks/c05/repeat as <output-binary>-repeat with the PLAIN modfile.
 exec "$(dirname "$0")/../c12/build.sh" "$1" "$2" ./checks/c05
